@@ -732,6 +732,7 @@ package sse
 //@   ensures nothing_after_an_error: forall(x, old(ncalls()), ncalls(), isyield(x) && yielderr(x) != nil ==> x == ncalls()-1)
 //@   ensures stops_when_told: forall(x, old(ncalls()), ncalls()-1, isyield(x) ==> cret(x, "yield", 0))
 //@   ensures retry_only_for_valid_values: forall(x, old(ncalls()), ncalls(), iscall(x, "onRetry") ==> carg(x, "onRetry", 0) >= 0)
+//@   ensures clean_end_is_no_error_for_read: ignoreEOF ==> forall(x, old(ncalls()), ncalls(), isyield(x) ==> yielderr(x) != io.EOF)
 //@   ensures ends_with_a_reason: !ignoreEOF && (forall(x, old(ncalls()), ncalls(), isyield(x) ==> cret(x, "yield", 0))) ==> ncalls() > old(ncalls()) && isyield(ncalls()-1) && yielderr(ncalls()-1) != nil
 //@   invariant 0 parser_alive: p != nil && p.fieldScanner != nil && p.inputScanner != nil && !p.fieldScanner.keepComments
 //@   invariant 0 no_error_yielded_yet: forall(x, old(ncalls()), ncalls(), isyield(x) ==> yielderr(x) == nil && cret(x, "yield", 0))
@@ -755,6 +756,8 @@ package sse
 
 //@ func Connection.read$1
 //@   requires c != nil
+//@   ensures buffer_limit_installed: len(c.buf) != 0 || c.bufMaxSize > 0 ==> scmax(result.inputScanner) == c.bufMaxSize
+//@   ensures default_limit_otherwise: !(len(c.buf) != 0 || c.bufMaxSize > 0) ==> scmax(result.inputScanner) == 0
 //@   ensures parser_is_new: fresh(result) && fresh(result.fieldScanner)
 //@   ensures parser_ready: result != nil && result.inputScanner != nil && result.fieldScanner != nil && !result.fieldScanner.keepComments && result.fieldScanner.err == nil
 
@@ -849,3 +852,9 @@ package sse
 // algorithm (with go-sse's adaptations) on the interpreter state (sb, typ, lastEventID, dirty). prev(e) is the value
 // of e when the iteration's body starts (the field f has just been read).
 //@ pure chomp(s) = ite(len(s) > 0, substr(s, 0, len(s)-1), s)
+
+//@ func Read$1
+//@   ensures max_event_size_installed: cfg != nil && cfg.MaxEventSize > 0 ==> scmax(result.inputScanner) == cfg.MaxEventSize
+//@   ensures default_limit_otherwise: !(cfg != nil && cfg.MaxEventSize > 0) ==> scmax(result.inputScanner) == 0
+//@   ensures parser_is_new: fresh(result) && fresh(result.fieldScanner)
+//@   ensures parser_ready: result != nil && result.inputScanner != nil && result.fieldScanner != nil && !result.fieldScanner.keepComments && result.fieldScanner.err == nil && !scstarted(result.inputScanner)
